@@ -1,4 +1,4 @@
 SPECIFICATION Spec
-INVARIANTS AtMostOnce OwnResponse OwnException OnlySubmittedGetResults QuiescentOK UnansweredGetConnError
+INVARIANTS StableResult AtMostOnce OwnResponse OwnException OnlySubmittedGetResults QuiescentOK UnansweredGetConnError
 POSTCONDITION Accepted
 CHECK_DEADLOCK FALSE
